@@ -103,6 +103,9 @@ func TestCheck(t *testing.T) {
 	default:
 		c.Roots, c.Sweeps, c.SweepK = r.N(120, 900), r.N(165, 560), r.N(400, 3000)
 	}
+	if r.Stage == "main" {
+		c.Deep, c.DeepNodes = r.N(32, 320), r.N(2_000_000, 8_000_000)
+	}
 	c.Go()
 	if r.Stage == "main" {
 		uciPath(r)
